@@ -394,7 +394,7 @@ func genCase(t *rapid.T) mcase {
 }
 
 func TestPropValidation(t *testing.T) {
-	ev.Check(t, 20000, 150000, func(t *rapid.T) {
+	ev.Check(t, 20000, 600000, func(t *rapid.T) {
 		c := genCase(t)
 		nt, skipped, err := check(c)
 		if err != nil {
